@@ -49,7 +49,9 @@ def bounds(tier):
     return {"n": ("1..8" if tier == "quick" else "1..12") + " (n>6: <=4 distinct eigenvalues, commuting preconditioners)", "spectra": list(SPECTRA),
             "U": ["I", "householder", "dft"], "b": ["e1", "ones", "Uones", "complex"], "x0": ["zero", "(1+i)ones"],
             "P": ["none", "jacobi", "commuting", "hpd"], "A as": ["MatMul", "function"], "max_iter": ["1", "2", "n", "n+2"],
-            "tol": [0, 1e-3], "breakdown": ["indefinite", "negative-definite", "singular PSD"]}
+            "tol": [0, 1e-3], "breakdown": ["indefinite", "negative-definite", "singular PSD"],
+            "composite A": ["M.H*M + I/4", "M.N + I/4"], "derived operators": ["none", "A+mu I, A-A, Add([A,A]) built before the solve", "... after the first update"],
+            "layouts": ["contiguous", "strided x"], "scales": "5 (A, b) scalings 1e-15..1e12"}
 
 
 def gen_cases(tier, seed):
@@ -95,6 +97,11 @@ def gen_cases(tier, seed):
             for P in ("none", "jacobi"):
                 cases.append(dict(kind="cg", n=n, spectrum="three", U="dft", b="complex", x0="zero", P=P, asfn=False,
                                   max_iter="n+2", tol=0, composite=comp))
+                # ... and other operators are derived from it while it is in use (a regularisation sweep builds
+                # A + mu I for several mu from one A): before the solve starts, or between two updates
+                for derive in ("before", "during"):
+                    cases.append(dict(kind="cg", n=n, spectrum="three", U="dft", b="complex", x0="zero", P=P, asfn=False,
+                                      max_iter="n+2", tol=0, composite=comp, derive=derive))
     # systems far from unit scale: CG is invariant under A -> sA, b -> tb (iterates scale by t/s)
     for n in (2, 4):
         for (sa, sb) in ((1e-12, 1.0), (1e12, 1.0), (1e-10, 1e-10), (1.0, 1e-15), (1e8, 1e-8)):
@@ -163,8 +170,9 @@ def run_case(case, seed):
         b = b * case["scaleb"]
         if P is not None:
             P = P / case["scaleA"]
-    when = "P=%s, max_iter=%s, A as %s%s" % (case["P"], case["max_iter"], "function" if case["asfn"] else "Linop",
-                                             ", non-contiguous x" if case.get("xlayout") else "")
+    when = "P=%s, max_iter=%s, A as %s%s%s" % (case["P"], case["max_iter"], "function" if case["asfn"] else "Linop",
+                                               ", non-contiguous x" if case.get("xlayout") else "",
+                                               ", other operators derived from A" if case.get("derive") else "")
 
     def V(oracle, detail):
         viol.append(dict(oracle=oracle, key=dict(site="alg.ConjugateGradient", when=when), detail=detail + " | " + str(case)))
@@ -187,6 +195,8 @@ def run_case(case, seed):
             Msq = np.linalg.cholesky(A - 0.25 * np.eye(n)).conj().T      # A = Msq^H Msq + 0.25 I, Msq complex upper triangular
             Mop = sp.linop.MatMul([n, 1], Msq)
             Aop = (Mop.H * Mop if case["composite"] == "MH*M" else Mop.N) + 0.25 * sp.linop.Identity([n, 1])
+        if case.get("derive") == "before":
+            derived = [Aop + 0.5 * sp.linop.Identity([n, 1]), Aop - Aop, sp.linop.Add([Aop, Aop])]
         if strided:
             buf = np.zeros((n, 3), complex)
             xc = buf[:, 1:2]
@@ -225,6 +235,8 @@ def run_case(case, seed):
         alg.update()
         k += 1
         states += 1
+        if k == 1 and case.get("derive") == "during":
+            derived = [Aop + 0.5 * sp.linop.Identity([n, 1]), Aop - Aop, sp.linop.Add([Aop, Aop])]
         if alg.x is not xc:
             V("in-place", "after %d updates alg.x is no longer the caller's array" % k)
             break
